@@ -128,6 +128,8 @@ PLAIN = [
     ('SELECT account, open.date AS od FROM #accounts', ('acct',)),
     ('SELECT count(account) AS n FROM #accounts', ('acct',)),
     ('SELECT open_date("Assets:Nowhere") AS o, close_date("Expenses:Typo") AS c, account LIMIT 2', ('acct',)),
+    ("SELECT a, ('x', 'y') AS wanted, ('USD', 'EUR', 'USD') AS curs FROM #t0", ('listconst',)),
+    ("SELECT account, ('Assets', 'Income') AS roots WHERE number > 0", ('listconst',)),
     ('SELECT nosuch FROM #t0', ('bad',)),
     ('SELECT a FROM', ('bad',)),
     ('SELECT sum(a), a FROM #t0 WHERE sum(a) > 0', ('bad',)),
@@ -277,6 +279,9 @@ def generate(rng, tier, run):
     for tpl, types_, tags in rng.sample(PARAM_TEMPLATES, rng.randint(3, 6)):
         n = len(types_)
         names = [f'p{k}' for k in range(n)]
+        if rng.random() < 0.25:
+            # parameter names are keys of the caller's mapping: case matters
+            names = [rng.choice([f'P{k}', f'minDate{k}', f'Max_{k}', f'p{k}']) for k in range(n)]
         if n >= 2 and rng.random() < 0.3:
             # repeated name: only between slots of identical type
             cand = [(i, j) for i in range(n) for j in range(i + 1, n) if types_[i] == types_[j]]
@@ -401,6 +406,7 @@ def generate(rng, tier, run):
         'world': {'ledger': ledger, 'ledger2': ledger2, 'tables': [t0], 'late': t1, 'late2': t1b, 'stmts': pool},
         'clients': clients,
         'nested': nested,
+        'mutate_fetched': rng.random() < 0.3,
         'schedule': sim.interleave(rng, [len(c['ops']) for c in clients]),
     }
 
@@ -416,10 +422,21 @@ def run_stmt(conn, arg, params, cur=None):
     return outcome_of(cur)
 
 
+MUTATE_FETCHED = [False]
+
+
 def outcome_of(cur):
     desc = cur.description
     rows = cur.fetchall()
-    return ('ok', [[c.name, core.type_name(c.datatype)] for c in desc], canon_rows(rows))
+    out = ('ok', [[c.name, core.type_name(c.datatype)] for c in desc], canon_rows(rows))
+    if MUTATE_FETCHED[0]:
+        # what was fetched belongs to the caller: it may sort or extend list-valued cells in place
+        for r in rows:
+            for cell in r:
+                if isinstance(cell, list):
+                    cell.sort()
+                    cell.append('caller-added')
+    return out
 
 
 def guarded(fn):
@@ -434,6 +451,7 @@ def guarded(fn):
 def execute(case, keep_log=False):
     W = case['world']
     pool = W['stmts']
+    MUTATE_FETCHED[0] = bool(case.get('mutate_fetched'))
     log = core.EventLog(keep=keep_log)
     S = sim.OpSim(log)
     world.set_current(S)
@@ -489,6 +507,12 @@ def execute(case, keep_log=False):
             if got[0] == 'err' and ref[0] == 'err':
                 if got[1] != ref[1]:
                     violation('history-exception-class', where, op, ref[1], got[1])
+                elif params is not None and op.get('_lit_text') and not op.get('badparams'):
+                    # rider (b): the statement with the values written as literals works - so must this one
+                    lit = reference(op['_lit_text'], None, op['_lit_mk'], 'sub')
+                    if lit[0] == 'ok':
+                        S.probes['literal_twin_compared'] += 1
+                        violation('param-vs-literal', where, op, brief(lit), brief(got), ':fails')
                 return
             if got != ref:
                 violation('history', where, op, brief(ref), brief(got), sigx=':' + ('fails' if got[0] == 'err' else 'differs'))
@@ -809,6 +833,7 @@ def execute(case, keep_log=False):
         stats['nontrivial'] = bool((flags['reuse'] or flags['many'] or flags['nested']) and len(executed_texts) >= 2)
     finally:
         world.set_current(None)
+        MUTATE_FETCHED[0] = False
     stats['steps'] = S.steps
     stats['probes'] = dict(S.probes)
     stats['faults_fired'] = dict(S.fired)
